@@ -57,10 +57,10 @@ ASSUMPTIONS = [
     "TypeError / per-observer lists); BolometerCamera documents list-only foil_detectors assignment",
 ]
 QUICK = dict(cases=3000, workers=2, timecap=30)
-THOROUGH = dict(cases=300000, workers=16, timecap=540)
-REQUIRED = {"assign_scalar": 300, "assign_seq": 600, "wronglen": 600, "getter": 1500, "snapshot_members": 3000,
-            "lookup_index": 500, "lookup_slice": 300, "lookup_name": 200, "invariant": 3000, "hook_invariant": 3000,
-            "foreign": 100, "observe_members": 50, "history_ops": 2000, "registry": 7}
+THOROUGH = dict(cases=300000, workers=16, timecap=300)
+REQUIRED = {"registry": 7, "assign_scalar": 300, "assign_seq": 1200, "wronglen": 3000, "getter": 10000,
+            "snapshot_members": 20000, "lookup_index": 500, "lookup_slice": 800, "lookup_name": 300, "invariant": 5000,
+            "hook_invariant": 5000, "foreign": 500, "observe_members": 50, "history_ops": 5000, "random_histories": 50}
 
 CLASSES = ["SightLineGroup", "FibreOpticGroup", "PixelGroup", "TargettedPixelGroup",
            "SpectroscopicSightLineGroup", "SpectroscopicFibreOpticGroup", "BolometerCamera"]
@@ -362,6 +362,11 @@ def _gen_history(rng, cname, tier):
     if rng.random() < 0.1:
         n0 = 0
     nops = int(rng.integers(5, 31))
+    cap = 10
+    if tier == "thorough" and rng.random() < 0.3:        # thorough tier: larger groups and longer histories as well
+        n0 = int(rng.integers(0, 11))
+        nops = int(rng.integers(30, 61))
+        cap = 14
     attrs = _broadcast_attrs(cname)
     paths = _member_paths(cname)
     pool = [_gen_member(rng, cname, i) for i in range(n0)]
@@ -371,14 +376,14 @@ def _gen_history(rng, cname, tier):
     for _ in range(nops):
         n = len(members)
         r = rng.random()
-        if r < 0.12 and len(pool) < 10:
+        if r < 0.12 and len(pool) < cap:
             pool.append(_gen_member(rng, cname, len(pool)))
             via = paths["add"][int(rng.integers(len(paths["add"])))]
             ops.append({"op": "add", "m": len(pool) - 1, "via": via})
             members.append(len(pool) - 1)
         elif r < 0.20:
             # assign a new member list: random subset/permutation of the pool (possibly with fresh members)
-            if len(pool) < 10 and rng.random() < 0.4:
+            if len(pool) < cap and rng.random() < 0.4:
                 pool.append(_gen_member(rng, cname, len(pool)))
             k = int(rng.integers(0, min(len(pool), 6) + 1))
             ms = [int(i) for i in rng.permutation(len(pool))[:k]]
@@ -466,6 +471,8 @@ def fixed_cases(tier):
                 pool = [_gen_member(rng, cname, i) for i in range(n)]
                 ops = []
                 if attr in ATTRS:
+                    if not ATTRS[attr]["scalar"]:
+                        ops.append({"op": "scalar_unsupported", "attr": attr})
                     for kind in _kinds(attr):
                         ops.append(_gen_assign(rng, attr, n, kind))
                         ops.append({"op": "read", "attr": attr})
@@ -1277,6 +1284,8 @@ def run_case(case, ctx):
     env = Env(case)
     if kind == "registry":
         return op_registry(env, ctx)
+    if kind == "history":
+        ctx.mon("random_histories")
     build_group(env, ctx)
     for op in case["ops"]:
         o = op["op"]
@@ -1287,6 +1296,8 @@ def run_case(case, ctx):
             op_wronglen(env, ctx, op)
         elif o == "generic":
             op_generic(env, ctx, op)
+        elif o == "scalar_unsupported":
+            ctx.skip("single-value assignment to `%s` is documented as unsupported (class docstring / repository tests)" % op["attr"])
         elif o == "read":
             check_getter(env, ctx, op["attr"])
         elif o == "read_all":
